@@ -638,12 +638,23 @@ def run_readonly(d):
     cls = cls_of(kind)
     u = UNIT[FAM]
     base = to_np([[j % 2] for j in range(n + spare)], d["dtype"])
+    late = kind == "D" and d.get("late1d")
     if kind == "D":
-        base = base.reshape(n + spare, 1)
-    base.flags.writeable = False
+        # late1d: a 1-D array (the waveform keeps a 2-D view of it) that its owner makes read-only AFTER handing it over
+        base = base.reshape(-1).copy() if late else base.reshape(n + spare, 1)
+    if not late:
+        base.flags.writeable = False
     tim = lambda b, k: Timing.create_with_irregular_interval([mk_dtm(FAM, (b + j) * u) for j in range(k)]) if d["irregular"] else None
     kw = {} if kind == "S" or not d["irregular"] else {"timing": tim(0, n)}
-    w = cls(**{("data" if kind in ("D", "S") else "raw_data"): base}, sample_count=n, extended_properties={"k1": "a"}, **kw)
+    if late:
+        w = cls(0, 1, base.dtype, extended_properties={"k1": "a"})
+        w.load_data(base, copy=False, sample_count=n)
+        if kw:
+            w.timing = kw["timing"]
+    else:
+        w = cls(**{("data" if kind in ("D", "S") else "raw_data"): base}, sample_count=n, extended_properties={"k1": "a"}, **kw)
+    if not late:
+        base.flags.writeable = False
 
     def obs():
         s = snapshot(w)
@@ -653,6 +664,7 @@ def run_readonly(d):
     flags = []
     for op in d["ops"]:
         pre = obs()
+        base.flags.writeable = False     # (late1d: only now, after the waveform and its views were last looked at)
         k = op["k"]
         arr = to_np([[1]] * op["m"], d["dtype"])
         if kind == "D":
@@ -817,10 +829,15 @@ def to_coq(c, r):
 
 def readonly_cases(rng, count):
     out = []
+    # calls that would have to GROW the read-only buffer: rejected before anything is resized
+    for kind in "ACDSD":
+        for late in ((False, True) if kind == "D" else (False,)):
+            out.append({"ro": {"kind": kind, "dtype": sorted(SUPPORTED[kind])[0], "n": 1, "spare": 1, "irregular": False, "late1d": late,
+                               "ops": [{"k": "arr", "m": 3}, {"k": "load", "m": 4}, {"k": "wfm", "m": 3}, {"k": "list", "m": 2}]}})
     for _ in range(count):
         kind = rng.choice("ACD" + "S")
         out.append({"ro": {"kind": kind, "dtype": rng.choice(sorted(SUPPORTED[kind])), "n": rng.choice([0, 1, 3]), "spare": rng.choice([1, 2, 4]),
-                           "irregular": kind != "S" and rng.random() < 0.7,
+                           "irregular": kind != "S" and rng.random() < 0.7, "late1d": kind == "D" and rng.random() < 0.5,
                            "ops": [{"k": rng.choice(["arr", "wfm", "list", "load"]), "m": rng.choice([1, 1, 2])} for _ in range(rng.randrange(1, 4))]}})
     return out
 
